@@ -137,6 +137,27 @@ func BlockGuards(b *ssa.BasicBlock) []Atom {
 	return out
 }
 
+// ReachableBlocks returns the blocks reachable from the entry when branches on
+// constant conditions (e.g. runtime.GOOS comparisons folded by go/ssa) are
+// resolved.
+func ReachableBlocks(fn *ssa.Function) map[*ssa.BasicBlock]bool {
+	seen := map[*ssa.BasicBlock]bool{}
+	var visit func(b *ssa.BasicBlock)
+	visit = func(b *ssa.BasicBlock) {
+		if seen[b] {
+			return
+		}
+		seen[b] = true
+		for _, si := range feasibleSuccs(b) {
+			visit(b.Succs[si])
+		}
+	}
+	if len(fn.Blocks) > 0 {
+		visit(fn.Blocks[0])
+	}
+	return seen
+}
+
 var mustCache = map[*ssa.Function]map[*ssa.BasicBlock][]Atom{}
 
 // Guards returns the atoms holding whenever an instruction executes (must
